@@ -25,8 +25,8 @@ CONSTANTS Callers,      \* set of caller ids
           Xids,         \* set of transaction ids that can appear
           None
 
-VARIABLES cfg,      \* [T, tries, bufcap, v4, xid : [Callers -> Xids], urgent, timed,
-                    \*  cancelChecksIdentity, timerPerIteration]   (never changes)
+VARIABLES cfg,      \* [T, tries, bufcap, v4, xid : [Callers -> Xids], urgent, timed, maxCalls, wfault,
+                    \*  cancelChecksIdentity, timerPerIteration, timeoutCarriesOver, writeErrKeepsEntry]   (never changes)
           cs,       \* caller state: [Callers -> record]
           ents,     \* sequence of pending-map entries ever created:
                     \*   [ch, closed, done, owner, xid, hist]
@@ -44,7 +44,8 @@ vars == <<cfg, cs, ents, pending, lp, cl, net, dgs, rxn, ctxDone, now>>
 Kinds == {"good", "rej", "undec", "wrongop", "wronghw"}
 
 InitCaller == [pc |-> "idle", try |-> 0, tmo |-> 0, deadline |-> 0, ent |-> 0, res |-> None, got |-> 0,
-               start |-> 0, retAt |-> 0, txs |-> <<>>, wake |-> None, wd |-> 0, regRx |-> 0, ctxAt |-> -1]
+               start |-> 0, retAt |-> 0, txs |-> <<>>, wake |-> None, wd |-> 0, regRx |-> 0, ctxAt |-> -1,
+               calls |-> 0, lastTmo |-> 0]
 
 InitWith(c) ==
     /\ cfg = c
@@ -64,11 +65,20 @@ Set(c, r) == cs' = [cs EXCEPT ![c] = r]
 \* SendAndRead is called; retryFn starts (a try count of 0 fails at once)
 Start(c) ==
     /\ cs[c].pc = "idle"
-    /\ Set(c, [cs[c] EXCEPT !.start = now, !.tmo = cfg.T,
+    /\ Set(c, [cs[c] EXCEPT !.start = now,
+                             !.tmo = IF cfg.timeoutCarriesOver /\ cs[c].calls > 0 THEN cs[c].lastTmo ELSE cfg.T,
                              !.pc = IF cfg.tries = 0 THEN "returned" ELSE "sendpre",
                              !.res = IF cfg.tries = 0 THEN "noresp" ELSE None,
                              !.retAt = now])
     /\ UNCHANGED <<cfg, ents, pending, lp, cl, net, dgs, rxn, ctxDone, now>>
+
+\* the same caller calls SendAndRead again on the same client, with a fresh context: nothing of the
+\* previous call is left (its transaction id is reusable, its timeout starts from the configured value again)
+Again(c) ==
+    /\ cs[c].pc = "returned" /\ cs[c].calls + 1 < cfg.maxCalls
+    /\ Set(c, [InitCaller EXCEPT !.calls = cs[c].calls + 1, !.lastTmo = cs[c].tmo])
+    /\ ctxDone' = [ctxDone EXCEPT ![c] = FALSE]
+    /\ UNCHANGED <<cfg, ents, pending, lp, cl, net, dgs, rxn, now>>
 
 \* send(): under the lock, refuse a transaction id that is pending, else register a new entry
 SendLock(c) ==
@@ -85,11 +95,17 @@ SendLock(c) ==
 
 \* conn.WriteTo: one transmission; the try's timer starts when the wait loop is entered
 Transmit(c) ==
-    /\ cs[c].pc = "txpre"
-    /\ IF cl.connClosed
-       THEN Set(c, [cs[c] EXCEPT !.pc = "cancelpre", !.res = "writeerr"])
-       ELSE Set(c, [cs[c] EXCEPT !.pc = "wait", !.deadline = now + cs[c].tmo,
-                                  !.txs = Append(@, [at |-> now - cs[c].start, try |-> cs[c].try + 1])])
+    /\ cs[c].pc = "txpre" /\ ~cl.connClosed
+    /\ Set(c, [cs[c] EXCEPT !.pc = "wait", !.deadline = now + cs[c].tmo,
+                             !.txs = Append(@, [at |-> now - cs[c].start, try |-> cs[c].try + 1])])
+    /\ UNCHANGED <<cfg, ents, pending, lp, cl, net, dgs, rxn, ctxDone, now>>
+\* the write fails: always when the connection is closed, at any time when the environment injects faults (link
+\* down).  The call cancels its registration and returns the error, without another attempt.
+TransmitFail(c) ==
+    /\ cs[c].pc = "txpre" /\ (cl.connClosed \/ cfg.wfault)
+    /\ IF cfg.writeErrKeepsEntry
+       THEN Set(c, [cs[c] EXCEPT !.pc = "returned", !.res = "writeerr", !.retAt = now])
+       ELSE Set(c, [cs[c] EXCEPT !.pc = "cancelpre", !.res = "writeerr"])
     /\ UNCHANGED <<cfg, ents, pending, lp, cl, net, dgs, rxn, ctxDone, now>>
 
 \* the wait loop's select: any ready arm may be taken (Go chooses at random)
@@ -216,7 +232,7 @@ CtxCancel(c) ==
     /\ cs' = [cs EXCEPT ![c].ctxAt = now]
     /\ UNCHANGED <<cfg, ents, pending, lp, cl, net, dgs, rxn, now>>
 
-CallerStep(c) == \/ SendLock(c) \/ Transmit(c) \/ WakeRecv(c) \/ WakeTimeout(c) \/ WakeCtx(c)
+CallerStep(c) == \/ SendLock(c) \/ Transmit(c) \/ TransmitFail(c) \/ WakeRecv(c) \/ WakeTimeout(c) \/ WakeCtx(c)
                  \/ WakeClosed(c) \/ Proceed(c) \/ CancelDone(c) \/ CancelLock(c)
 LoopStep == LoopRead \/ LoopExit \/ LoopLock \/ LoopSelDone \/ LoopSelSend
 CloseStep == CloseDone \/ CloseReturn
@@ -288,5 +304,5 @@ NoRespAtBudget == (cfg.timed /\ cfg.urgent /\ cfg.tries >= 0) =>
                 \A c \in Callers : (cs[c].pc = "returned" /\ cs[c].res = "noresp" /\ ~cl.doneClosed) =>
                     /\ Len(cs[c].txs) = cfg.tries
                     /\ cs[c].retAt = cs[c].start + Budget
-NoTxAfterAccept == [][\A c \in Callers : cs[c].res = "msg" => cs'[c].txs = cs[c].txs]_vars
+NoTxAfterAccept == [][\A c \in Callers : (cs[c].res = "msg" /\ cs'[c].calls = cs[c].calls) => cs'[c].txs = cs[c].txs]_vars
 =============================================================================
